@@ -17,6 +17,7 @@
 EXTENDS Naturals, Sequences, FiniteSets, TLC, Json
 CONSTANTS MaxNodes,
           WithNext,              \* TRUE: `with next_rule(c):` blocks are written too
+          SiblingRefinements,    \* TRUE: a block may hold several `with refinement(c):` blocks
           RefinementRelinks,     \* TRUE: refinement() puts the new ExceptIf in the place of the refined branch in the
                                  \* operator that holds it (commit "fix: a refinement nested under ..."); FALSE: as before
           AlternativeClimbsAll   \* TRUE: alternative() climbs to the top of the chain the current block belongs to
@@ -39,8 +40,14 @@ ReplaceChild(ws, p, old, new) ==
   IF p = 0 THEN ws ELSE [ws EXCEPT ![p] = IF @.l = old THEN [@ EXCEPT !.l = new] ELSE [@ EXCEPT !.r = new]]
 
 \* `with refinement(c):` inside the block on top of the stack
+\* the abstract node an alternative written in the current block belongs to: the last node of the alternative chain
+\* of the block's node
+RECURSIVE LastAlt(_, _)
+LastAlt(aa, i) == IF aa[i].alt = 0 THEN i ELSE LastAlt(aa, aa[i].alt)
+\* a second `with refinement(c):` in the same block: rule.py wraps the refined branch once more, inside the first wrapper, so
+\* the refinement written first is consulted first - abstractly the new one joins the chain the first one heads
 Refine ==
-  /\ n < MaxNodes /\ a[Top.aid].ref = 0
+  /\ n < MaxNodes /\ (a[Top.aid].ref = 0 \/ SiblingRefinements)
   /\ LET cur == Top.wid
          pp == w[cur].parent
          leaf == NewId
@@ -49,14 +56,12 @@ Refine ==
          w2 == [w1 EXCEPT ![cur].parent = exc]
      IN /\ w' = IF RefinementRelinks THEN ReplaceChild(w2, pp, cur, exc) ELSE w2
         /\ root' = IF pp = 0 THEN exc ELSE root
-        /\ a' = Append([a EXCEPT ![Top.aid].ref = n + 1], [ref |-> 0, alt |-> 0, edge |-> "alt"])
+        /\ a' = Append(IF a[Top.aid].ref = 0 THEN [a EXCEPT ![Top.aid].ref = n + 1]
+                       ELSE [a EXCEPT ![LastAlt(a, a[Top.aid].ref)].alt = n + 1],
+                       [ref |-> 0, alt |-> 0, edge |-> "alt"])
         /\ stack' = Append(stack, [wid |-> leaf, aid |-> n + 1])
   /\ n' = n + 1 /\ hist' = Append(hist, "refinement")
 
-\* the abstract node an alternative written in the current block belongs to: the last node of the alternative chain
-\* of the block's node
-RECURSIVE LastAlt(_, _)
-LastAlt(aa, i) == IF aa[i].alt = 0 THEN i ELSE LastAlt(aa, aa[i].alt)
 
 \* the top of the chain of alternatives (and of the refinement whose refined branch it is) that node i belongs to
 RECURSIVE Climb(_, _)
